@@ -7,9 +7,11 @@
 package consteval
 
 import (
+	"fmt"
 	"go/constant"
 	"go/token"
 	"go/types"
+	"os"
 	"sort"
 
 	"golang.org/x/tools/go/ssa"
@@ -245,6 +247,9 @@ func (e *Evaluator) eval(fn *ssa.Function, args []Val, env Env, depth int) []Out
 					} else {
 						// explore both; bound revisits on unknown conditions
 						e.Forks++
+						if os.Getenv("TV_DBG_FORK") != "" {
+							fmt.Fprintf(os.Stderr, "FORK %s: %s = %v (%s)\n", b.Parent().Name(), x.Cond.Name(), x.Cond, c)
+						}
 						if e.Bytes && e.bufs > 0 {
 							// the two sides would share the live buffers
 							e.impure = true
